@@ -345,19 +345,52 @@ package sqlite
 //@   effect pure
 //@   modifies poolLimit(db)
 //@   ensures poolLimit(db) == n
+//@ event openCall := call func(driverName string, dataSourceName string) (*sql.DB, error) record 1:String 2:String
+//@ event dbExec := call (*DB).Exec record 1:String
+//@ event dbExecCtx := call (*DB).ExecContext
+//@ event dbQueryRow := call (*DB).QueryRowContext
+//@ event dbClose := call (*DB).Close
+//@ event pragmasCall := call applyPragmas
+//@ event migrateCall := call migrate
+//@ event migrateV1Call := call migrateV1
+//@ event newFromDBCall := call newFromDB
 //@ func applyPragmas
 //@   props C10 C03
 //@   requires db != nil && cfg != nil
 //@   loop 1 invariant [idx] rangeindex < len(pragmas) && -1 <= rangeindex
+//@   loop 1 invariant [C10.sqlite.pragmas.loop] cnt(dbExec) == rangeindex + 1 && len(pragmas) == 6
 //@   ensures [C03.sqlite.pragmas.pool] poolLimit(db) == old(poolLimit(db))
+// every pragma is executed (in order) unless one fails, and a failure is reported
+//@   ensures [C10.sqlite.pragmas.all] result == nil ==> cnt(dbExec) == 6
+//@   loop 1 iter [C10.sqlite.pragmas.ok] lastresi(dbExec, 1, Iface) == nil
+//@   at call:Errorf assert [C10.sqlite.pragmas.err] lastresi(dbExec, 1, Iface) != nil
 //@ func migrate
 //@   props C10 C03
 //@   requires db != nil && ctx != nil
 //@   ensures [C03.sqlite.migrate.pool] poolLimit(db) == old(poolLimit(db))
+// the version table is created first, the version read, and the initial schema applied exactly when the version is below 1
+//@   ensures [C10.sqlite.migrate.table] cnt(dbExecCtx) == 1 && (lastresi(dbExecCtx, 1, Iface) != nil ==> result != nil && cnt(dbQueryRow) == 0 && cnt(migrateV1Call) == 0)
+//@   ensures [C10.sqlite.migrate.version] cnt(dbQueryRow) == 1 && lastres(scanCall, Iface) != nil ==> result != nil && cnt(migrateV1Call) == 0
+//@   ensures [C10.sqlite.migrate.v1] cnt(dbQueryRow) == 1 && lastres(scanCall, Iface) == nil ==>
+//@        cnt(migrateV1Call) == ite(version < 1, 1, 0) && (version < 1 ==> result == lastres(migrateV1Call, Iface)) && (version >= 1 ==> result == nil)
 //@ func New
 //@   props C10 C03
 //@   requires forall k int :: {opts[k]} 0 <= k && k < len(opts) ==> opts[k] != nil
 //@   requires dbOpener != nil
 //@   loop 1 invariant [idx] rangeindex < len(opts) && -1 <= rangeindex
-//@   loop 1 invariant [cfg] cfg != nil && fresh(cfg)
+//@   loop 1 invariant [cfg] cfg != nil && fresh(cfg) && cfg.path == path && cnt(openCall) == 0
 //@   ensures [C03.sqlite.pool] result1 == nil ==> result0 != nil && result0.db != nil && poolLimit(result0.db) == 0
+// argument validation: an empty path and a file path carrying URI parameters are rejected before anything is opened
+//@   ensures [C10.sqlite.new.path] path == "" ==> result1 != nil && result0 == nil && cnt(openCall) == 0
+//@   ensures [C10.sqlite.new.uri] path != ":memory:" && (strContains(path, "?") || strContains(path, "#")) ==> result1 != nil && result0 == nil && cnt(openCall) == 0
+// one database is opened, with the sqlite driver; the in-memory database uses the shared cache
+//@   ensures [C10.sqlite.new.open] path != "" && !(path != ":memory:" && (strContains(path, "?") || strContains(path, "#"))) ==>
+//@        cnt(openCall) == 1 && lastarg(openCall, 1, String) == "sqlite" && (path == ":memory:" ==> lastarg(openCall, 2, String) == "file::memory:?mode=memory&cache=shared")
+// failures of the opener, the pragmas, the migration and the statement preparation are reported; the database is closed again
+//@   ensures [C10.sqlite.new.openerr] cnt(openCall) == 1 && lastresi(openCall, 1, Iface) != nil ==> result1 != nil && result0 == nil && cnt(pragmasCall) == 0
+//@   ensures [C10.sqlite.new.pragmaerr] cnt(pragmasCall) == 1 && lastres(pragmasCall, Iface) != nil ==> result1 != nil && result0 == nil && cnt(dbClose) == 1 && cnt(migrateCall) == 0 && cnt(newFromDBCall) == 0
+//@   ensures [C10.sqlite.new.migrateerr] cnt(migrateCall) == 1 && lastres(migrateCall, Iface) != nil ==> result1 != nil && result0 == nil && cnt(dbClose) == 1 && cnt(newFromDBCall) == 0
+// migrations run exactly when auto-migration is on (the default), after the pragmas and before the statements are prepared
+//@   ensures [C10.sqlite.new.steps] result1 == nil ==> cnt(pragmasCall) == 1 && cnt(newFromDBCall) == 1 && cnt(migrateCall) <= 1 && result0 == lastresi(newFromDBCall, 0) && StmtInv(result0) && result0.cfg.path == path
+//@   at call:migrate assert [C10.sqlite.new.migrate.when] cfg.autoMigrate && cnt(pragmasCall) == 1
+//@   at call:newFromDB assert [C10.sqlite.new.migrate.first] cnt(migrateCall) == ite(cfg.autoMigrate, 1, 0)
